@@ -306,6 +306,9 @@ def _t(node):
   return unparse(node).replace(' ', '')
 
 
+STATE_PROPERTIES = {'is_closed': 'Closed'}     # x.is_closed is `x.state == ChannelState.Closed` (scales/sink.py ClientMessageSink; re-confirmed on every run by sa/main.py)
+
+
 def equiv_facts(node, truth):
   """All equivalent spellings (text without spaces, truth) of an atomic branch fact, per the
   idiom table of DESIGN.md 4.2: negated / mirrored comparisons, `not x`, is-None vs
@@ -336,6 +339,10 @@ def equiv_facts(node, truth):
     l, r = node.left, node.comparators[0]
     lt, rt = _t(l), _t(r)
     add(lt + _OPTXT[op] + rt, truth)
+    if op in (ast.Eq, ast.NotEq) and lt.endswith('.state') and rt.startswith('ChannelState.'):
+      for pn, stn in STATE_PROPERTIES.items():
+        if rt == 'ChannelState.' + stn:
+          add(lt[:-len('.state')] + '.' + pn, truth if op is ast.Eq else not truth)
     if op in _NEGATE:
       add(lt + _OPTXT[_NEGATE[op]] + rt, not truth)
     if op in _MIRROR:
@@ -366,6 +373,13 @@ def equiv_facts(node, truth):
     return out
   if isinstance(node, (ast.Name, ast.Attribute, ast.Subscript)):
     truthy(_t(node), truth)
+    # the sink base class spells one state test as a property: x.is_closed <=> x.state == ChannelState.Closed
+    if isinstance(node, ast.Attribute) and node.attr in STATE_PROPERTIES:
+      base = _t(node.value)
+      st = STATE_PROPERTIES[node.attr]
+      add('%s.state==ChannelState.%s' % (base, st), truth)
+      add('%s.state!=ChannelState.%s' % (base, st), not truth)
+      add('ChannelState.%s==%s.state' % (st, base), truth)
     return out
   add(_t(node), truth)
   return out
